@@ -6,6 +6,7 @@ mod interpose;
 mod util;
 mod world;
 mod bytesapi;
+mod bigvalue;
 mod oneshotip;
 #[cfg(not(feature = "force-inprocess"))]
 mod eofrace;
@@ -45,6 +46,7 @@ fn main() {
     match args[1].as_str() {
         "world" => world::run(&args[2..]),
         "bytesapi" => bytesapi::run(&args[2..]),
+        "bigvalue" => bigvalue::run(&args[2..]),
         "oneshotip" => oneshotip::run(&args[2..]),
         #[cfg(not(feature = "force-inprocess"))]
         "eofrace" => eofrace::run(&args[2..]),
